@@ -55,14 +55,9 @@ func NewUnaryHandler[Req, Res any](
 	}
 	// Given a stream, how should we call the unary function?
 	implementation := func(ctx context.Context, conn StreamingHandlerConn) error {
-		var msg Req
-		if err := conn.Receive(&msg); err != nil {
+		request, err := receiveUnaryRequest[Req](conn)
+		if err != nil {
 			return err
-		}
-		request := &Request[Req]{
-			Msg:    &msg,
-			spec:   conn.Spec(),
-			header: conn.RequestHeader(),
 		}
 		response, err := untyped(ctx, request)
 		if err != nil {
@@ -115,17 +110,13 @@ func NewServerStreamHandler[Req, Res any](
 		procedure,
 		StreamTypeServer,
 		func(ctx context.Context, conn StreamingHandlerConn) error {
-			var msg Req
-			if err := conn.Receive(&msg); err != nil {
+			request, err := receiveUnaryRequest[Req](conn)
+			if err != nil {
 				return err
 			}
 			return implementation(
 				ctx,
-				&Request[Req]{
-					Msg:    &msg,
-					spec:   conn.Spec(),
-					header: conn.RequestHeader(),
-				},
+				request,
 				&ServerStream[Res]{conn: conn},
 			)
 		},
